@@ -8,6 +8,8 @@ import GscribModel.Drv.Report
 import GscribModel.Drv.Transform
 import GscribModel.Drv.Format
 import GscribModel.Drv.Tracer
+import GscribModel.Drv.GState
+import GscribModel.Drv.PointSrc
 /-! Line-protocol driver: `driver <mode>` (or `lake env lean --run Driver.lean <mode>`) reads one
     case/operation per line on stdin and prints exactly one record per line (`bad-op …` for an
     unparsable line).  Each mode lives in `GscribModel/Drv/<Mode>.lean`. -/
@@ -25,4 +27,6 @@ def main (args : List String) : IO UInt32 := do
   | ["transform"] => TransformDrv.main; return 0
   | ["format"] => FormatDrv.main; return 0
   | ["tracer"] => TracerDrv.main; return 0
+  | ["gstate"] => GStateDrv.main; return 0
+  | ["point"] => PointSrcDrv.main; return 0
   | _ => IO.eprintln s!"unknown mode {args}"; return 2
